@@ -125,10 +125,10 @@ def no_fit():
         GaussianProcess.initialise_gaussian_process = orig
 
 
-def make_gp(md, std_t: bool, std_r: bool):
+def make_gp(md, std_t: bool, std_r: bool, limit: bool = False):
     with no_fit() as GP:
         return GP(md, "RBF", [(1e-2, 1e2)] * (md.n_dims + 1), standardise_training=std_t,
-                  standardise_response=std_r, limit_highest_data=False)
+                  standardise_response=std_r, limit_highest_data=limit)
 
 
 def impl_state(md) -> dict:
@@ -296,13 +296,15 @@ def unique_tags(rng: random.Random, n: int, start: int = 0) -> np.ndarray:
 
 
 def scaled_dataset(rng: random.Random, n: int, d: int) -> tuple[np.ndarray, np.ndarray]:
-    """columns offset + scale * u with scales 1e-6…1e6, |offset| <= 100 * scale, no constant column"""
+    """columns offset + scale * u with scales 1e-6…1e6, |offset| <= 3e5 * scale, no constant column"""
     nr = np.random.RandomState(rng.getrandbits(31))
     while True:
         T = np.empty((n, d))
         for j in range(d):
             s = 10.0 ** rng.randrange(-6, 7)
-            off = s * rng.choice([0.0, 1.0, -3.0, 10.0, -100.0])
+            # offsets up to 3e5 spreads: a two-pass standard deviation still resolves these to ~1e-11,
+            # a one-pass (mean of squares minus squared mean) formula does not
+            off = s * rng.choice([0.0, 1.0, -3.0, 10.0, -100.0, 1.0e5, -3.0e5])
             T[:, j] = off + s * nr.uniform(-4, 4, size=n)
         s = 10.0 ** rng.randrange(-4, 5)
         R = s * rng.choice([0.0, 2.0, -50.0]) + s * nr.uniform(-4, 4, size=n)
@@ -788,14 +790,19 @@ def predicate_roundtrip(T, R) -> tuple[str, str] | None:
     return None
 
 
-def predicate_cycle(T, R, ft: bool, fr: bool, ops: list) -> tuple[str, str] | None:
+def predicate_cycle(T, R, ft: bool, fr: bool, ops: list, limit: bool = False) -> tuple[str, str] | None:
     """after every add_data / lowest_point the dataset in original units (stored statistics undone) is the
     old data followed by the new, whatever the flags"""
     T_all, R_all = np.array(T, dtype=float), np.array(R, dtype=float)
     md = make_md(T_all, R_all)
     with warnings.catch_warnings():
         warnings.simplefilter("ignore")
-        gp = make_gp(md, ft, fr)
+        gp = make_gp(md, ft, fr, limit)
+        if limit:
+            # limit_highest_data clips the response ONCE, when the surrogate is constructed (by design);
+            # from then on the dataset "as fitted" is the reference that additions must leave intact
+            R0 = np.atleast_1d(np.array(md.response, dtype=float))
+            R_all = R0 * md.resp_props["std"] + md.resp_props["mean"] if fr else R0.copy()
         for step, op in enumerate(ops):
             try:
                 if op[0] == "add":
@@ -888,17 +895,22 @@ def predicates(ctx: Ctx) -> None:
         ops = cycle_ops(rng, rng.randrange(1, ctx.scale(6, 12) + 1), d,
                         [max(float(np.max(np.abs(T[:, j]))), 1e-300) for j in range(d)], max(float(np.max(np.abs(R))), 1e-300))
         ops = [tuple(x.tolist() if isinstance(x, np.ndarray) else x for x in o) for o in ops]
-        for ft, fr in itertools.product((False, True), repeat=2):
-            r = predicate_cycle(T, R, ft, fr, ops)
-            ctx.stats.case({"stream": "predicate-cycle", "n": n, "d": d, "flags": [ft, fr], "len": len(ops)}, True)
+        # responses straddling zero with a few large ones, so that limit_highest_data has something to clip
+        Rl = np.array(R, dtype=float) - float(np.mean(R)) * rng.choice([0.0, 0.9, 1.0])
+        for ft, fr, lim in itertools.product((False, True), repeat=3):
+            Ruse = Rl if lim else R
+            r = predicate_cycle(T, Ruse, ft, fr, ops, lim)
+            ctx.stats.case({"stream": "predicate-cycle", "n": n, "d": d, "flags": [ft, fr], "limit_highest_data": lim,
+                            "len": len(ops)}, True)
             if r:
                 for k in range(1, len(ops) + 1):        # shortest failing prefix
-                    r2 = predicate_cycle(T, R, ft, fr, ops[:k])
+                    r2 = predicate_cycle(T, Ruse, ft, fr, ops[:k], lim)
                     if r2 and r2[0] == r[0]:
                         ops, r = ops[:k], r2
                         break
-                ctx.fail("add_data/lowest_point:" + r[0], r[1], {"pred": "cycle", "T": T.tolist(), "R": R.tolist(),
-                                                                   "flags": [ft, fr], "ops": ops})
+                ctx.fail("add_data/lowest_point:" + r[0], r[1] + (" [limit_highest_data=True]" if lim else ""),
+                         {"pred": "cycle", "T": T.tolist(), "R": np.asarray(Ruse).tolist(), "flags": [ft, fr],
+                          "limit": lim, "ops": ops})
                 break
 
 
@@ -933,7 +945,8 @@ def replay(ctx: Ctx, data: dict) -> bool:
         elif d.get("pred") == "roundtrip":
             r = predicate_roundtrip(d["T"], d["R"])
         elif d.get("pred") == "cycle":
-            r = predicate_cycle(d["T"], d["R"], bool(d["flags"][0]), bool(d["flags"][1]), [tuple(o) for o in d["ops"]])
+            r = predicate_cycle(d["T"], d["R"], bool(d["flags"][0]), bool(d["flags"][1]), [tuple(o) for o in d["ops"]],
+                                bool(d.get("limit", False)))
         elif "stream" in d and "ops" in d:
             ops = d["ops"]
             if ops and ops[0][0] == "new":
